@@ -2,11 +2,15 @@
 //! line mode (stdin):  case (0 text background intense) -> bytes written by one
 //!   AnsiWriter::set_style call on a Vec<u8> (text/background 0 = None, 1..8 = Black..White;
 //!   intense 0 = None, 1 = false, 2 = true); a panic is reported by main_loop.
+//! line mode:  case (2 pattern level message) -> bytes PatternEncoder::encode writes into an
+//!   AnsiWriter over a Vec<u8> (colour always on); the pattern text is rendered from the case's
+//!   chunk tree by gen/c18.py.
 //! child mode:  c18 child <target 0|1> <tty_only 0|1> <pattern hex> <level 1..5> <message hex>
 //!   builds a real ConsoleAppender (PatternEncoder) in THIS process -- whose environment and
 //!   stdout/stderr (pty or pipe) were arranged by the parent (gen/c18.py) -- appends one
-//!   record and exits 0 (3 if append returned Err).  The observable is what arrives on the
-//!   two streams.
+//!   record and then terminates with libc::_exit (0, or 3 if append returned Err) -- i.e.
+//!   WITHOUT running std's at-exit flush of stdout: the observable is what has reached the two
+//!   streams when append returns (bytes left in a user-space buffer are lost, as under a kill).
 use log4rs::append::console::{ConsoleAppender, Target};
 use log4rs::append::Append;
 use log4rs::encode::pattern::PatternEncoder;
@@ -32,6 +36,20 @@ fn color(n: u128) -> Option<Color> {
 
 fn run(case: &Val) -> Val {
     let c = case.l();
+    if c[0].n() == 2 {
+        let enc = PatternEncoder::new(&c[1].str());
+        let msg = c[3].str();
+        let mut w = AnsiWriter(Vec::<u8>::new());
+        let r = log4rs::encode::Encode::encode(
+            &enc,
+            &mut w,
+            &log::Record::builder().level(level(c[2].n())).target("tgt").args(format_args!("{}", msg)).build(),
+        );
+        return match r {
+            Ok(()) => Val::S(w.0),
+            Err(_) => Val::err(1),
+        };
+    }
     if c[0].n() != 0 {
         return Val::err(9); // process-level cases are run as child processes by gen/c18.py
     }
@@ -76,11 +94,12 @@ fn child(args: &[String]) -> i32 {
     let r = app.append(
         &log::Record::builder().level(lvl).target("tgt").args(format_args!("{}", msg)).build(),
     );
-    app.flush();
-    match r {
+    let code = match r {
         Ok(()) => 0,
         Err(_) => 3,
-    }
+    };
+    // no at-exit flush: what append left in user space never reaches the stream
+    unsafe { libc::_exit(code) }
 }
 
 fn main() {
